@@ -40,7 +40,8 @@
      accept.*    kinds of dangling references the real code accepts.  Enabled -> Evaluate may accept them.
                  Found: accept.body_attribute (Body(func) attributes with an empty payload), accept.response_tag (Tag on a
                  result attribute that does not exist), accept.error_response (an API-level gRPC Response for an error nobody
-                 declares).  The other kinds exist for the vacuity check of the invariant.
+                 declares).  The other kinds (request_mapping, response_mapping, response_view_mapping, grpc_mapping, scheme, scope, view)
+                 exist for the vacuity check of the invariant.
      report.unnamed   rejected programs whose errors do not name an expression (not observed).
      handoff.fails    accepted programs for which generation / compilation fails (property C01's business; recorded,
                       not judged here). *)
@@ -49,7 +50,8 @@ EXTENDS Integers, Sequences, FiniteSets, TLC
 CONSTANTS Deviations,     \* named departures of the code from the design that are switched on
           Fns,            \* the functions the generator may call (a subset of DOMAIN FT)
           Pools,          \* "min" / "tiny" / "small": a few tokens per argument (exhaustive runs); "full": all of them; "doc": documented uses only; "refs": documented uses plus spare names;
-                          \* "sec" / "rec" / "par": the tokens of the focused walks around security scopes / recursive user types / parent and child services
+                          \* "sec" / "rec" / "par" / "rv": the tokens of the focused walks around security scopes / recursive user types / parent and child
+                          \* services / response mappings under the views of a result type
           MaxCalls, MinCalls, MaxDepth, MaxMisplaced,
           MaxTop,         \* at most this many top-level calls (the rest of the budget goes into nesting)
           MinKids,        \* a func() does not return before it made this many calls (while the budget lasts)
@@ -582,9 +584,12 @@ SecTok == {"-", "a", "s1", "m1", "sc1", "api:read", "api:write", "nosuch", "plai
 RecTok == {"-", "a", "b", "s1", "m1", "e1", "T1", "T2", "nT1", "nT2", "ArrT1", "ArrT2", "ArrnT1", "ArrnT2", "MapST1", "MapSnT1", "MapSnT2", "plain", "fn", "/x"}
 \* parent walk: up to three services that name each other (or nobody) as parent, canonical methods ("show" is the default one), relative,
 \* parameterised and absolute paths
+\* response-view walk: a result type with attributes a, b and views default / tiny, a method that renders one of them or any, response mappings
+RvTok == {"-", "a", "b", "s1", "m1", "R1", "default", "tiny", "/x", "200", "plain", "fn"}
 ParTok == {"-", "a", "s1", "s2", "s3", "m1", "show", "nosuch", "/", "/x", "/x/{a}", "//abs/{a}", "plain", "fn"}
 Pool(S) == IF Pools = "full" THEN S
            ELSE IF Pools = "par" THEN (LET I == S \cap ParTok IN IF I = {} THEN {CHOOSE x \in S : TRUE} ELSE I)
+           ELSE IF Pools = "rv" THEN (LET I == S \cap RvTok IN IF I = {} THEN {CHOOSE x \in S : TRUE} ELSE I)
            ELSE IF Pools = "sec" THEN (LET I == S \cap SecTok IN IF I = {} THEN {CHOOSE x \in S : TRUE} ELSE I)
            ELSE IF Pools = "rec" THEN (LET I == S \cap RecTok IN IF I = {} THEN {CHOOSE x \in S : TRUE} ELSE I)
            ELSE IF Pools = "min" THEN (LET I == S \cap MinTok IN IF I = {} THEN {CHOOSE x \in S : TRUE} ELSE I)
@@ -687,7 +692,7 @@ ReqRefNames(ns, i) ==
 ResRefNames(ns, i) ==
   LET f == ns[i].f  n == ns[i].n IN
   CASE f \in {"Header", "Cookie"} -> {BaseName(n)} \cap AttrNames
-    [] f = "Body" /\ n \in AttrNames -> {n}
+    [] f = "Body" /\ n \in AttrNames /\ OnlyKid(ns, i, "Body") -> {n}       \* a later Body replaces an earlier one
     [] OTHER -> {}
 \* Body(func() { Attribute("x") }) in the method's HTTP block: the body attributes are payload attributes
 \* (a later Body replaces an earlier one: only a single Body is judged)
@@ -707,6 +712,35 @@ InSuccessResponse(ns, i) ==
 DanglingResponseMapping(ns) == \E i \in Idx(ns) :
   /\ InSuccessResponse(ns, i)
   /\ LET m == ns[ns[ns[i].p].p].p IN AttKnown(ns, m, ResultFs) /\ ~(ResRefNames(ns, i) \subseteq AttAttrs(ns, m, ResultFs))
+(* A response header / cookie / body that names an attribute of the result type which the rendered view(s) lack.
+   The result of the method is a result type the program shows completely (one ResultType call, nothing inherited, every
+   view defined by a function); the method renders the view its Result names - Result(R1, func() { View("tiny") }) - or,
+   when it names none, any of the views of the result type: the mapped attribute must be in the named view, or in all views.
+   "In a view" is generous: an Attribute call with that name in any View(name, func) of the result type. *)
+RTShown(ns, tok) == tok \in {"R1", "R2"} /\ TypeKnown(ns, tok) /\ Cardinality(RTNodes(ns, tok)) = 1
+RTOf(ns, tok) == CHOOSE r \in RTNodes(ns, tok) : TRUE
+ViewKids(ns, r) == {k \in KidsOf(ns, r) : ns[k].f = "View"}
+ViewsShown(ns, r) == \A k \in ViewKids(ns, r) : ns[k].v # "plain" /\ ~HasBase(ns, k)      \* (View("x") without a function selects a view for the type itself)
+ViewNames(ns, r) == {ns[k].n : k \in {j \in ViewKids(ns, r) : ns[j].v \in OpenVars}}
+ViewAttrs(ns, r, vn) == UNION {DeclNames(ns, k) : k \in {j \in ViewKids(ns, r) : ns[j].n = vn}}
+\* the views result node j may be rendered with, as far as this model judges it ({} = not judged)
+RenderedViews(ns, j) ==
+  LET r == RTOf(ns, ns[j].t)
+      vk == {k \in KidsOf(ns, j) : ns[k].f = "View"}
+  IN IF KidsOf(ns, j) = {} THEN ViewNames(ns, r)
+     ELSE IF KidsOf(ns, j) = vk /\ Cardinality(vk) = 1 /\ \A k \in vk : ns[k].v = "plain" /\ ns[k].n \in ViewNames(ns, r)
+          THEN {ns[k].n : k \in vk}
+     ELSE {}
+\* Body(func() { Attribute("x") }) in a response: the body attributes are result attributes (a single Body is judged)
+ResBodyRefNames(ns, i) == IF ns[i].f = "Body" /\ ns[i].n = "-" /\ ns[i].t = "-" /\ ns[i].v \in OpenVars /\ OnlyKid(ns, i, "Body") /\ ~HasBase(ns, i)
+                          THEN DeclNames(ns, i) \cap AttrNames ELSE {}
+DanglingResponseViewMapping(ns) == \E i \in Idx(ns) :
+  /\ InSuccessResponse(ns, i)
+  /\ LET m == ns[ns[ns[i].p].p].p IN
+     \E j \in Defs(ns, m, ResultFs) :
+       /\ Defs(ns, m, ResultFs) = {j} /\ ns[j].v # "many" /\ RTShown(ns, ns[j].t)
+       /\ ViewsShown(ns, RTOf(ns, ns[j].t))
+       /\ \E vn \in RenderedViews(ns, j) : ~((ResRefNames(ns, i) \cup ResBodyRefNames(ns, i)) \subseteq ViewAttrs(ns, RTOf(ns, ns[j].t), vn))
 DanglingResponseTag(ns) == \E i \in Idx(ns) :
   /\ InSuccessResponse(ns, i)
   /\ LET m == ns[ns[ns[i].p].p].p IN AttKnown(ns, m, ResultFs) /\ ~(TagRefNames(ns, i) \subseteq AttAttrs(ns, m, ResultFs))
@@ -763,6 +797,7 @@ DanglingKinds(ns) ==
   (IF DanglingBodyAttribute(ns) THEN {"body_attribute"} ELSE {}) \cup
   (IF DanglingResponseTag(ns) THEN {"response_tag"} ELSE {}) \cup
   (IF DanglingResponseMapping(ns) THEN {"response_mapping"} ELSE {}) \cup
+  (IF DanglingResponseViewMapping(ns) THEN {"response_view_mapping"} ELSE {}) \cup
   (IF DanglingGRPCMapping(ns) THEN {"grpc_mapping"} ELSE {}) \cup
   (IF DanglingScheme(ns) THEN {"scheme"} ELSE {}) \cup
   (IF DanglingView(ns) THEN {"view"} ELSE {}) \cup
@@ -880,9 +915,9 @@ CrashDevs == PatDevs \cup {"crash.extend_reference_nil", "crash.service_redefine
                          "crash.api_grpc_error_response", "crash.grpc_response_message_empty_dsl", "crash.enum_default_uncomparable",
                          "crash.extend_cycle_through_attribute", "crash.parent_cycle"}
 AcceptDevs == {"accept.body_attribute", "accept.response_tag", "accept.request_mapping", "accept.response_mapping", "accept.grpc_mapping", "accept.scheme", "accept.view", "accept.error_response",
-               "accept.scope"}
+               "accept.scope", "accept.response_view_mapping"}
 KindOfAccept(d) == CASE d = "accept.body_attribute" -> "body_attribute" [] d = "accept.response_tag" -> "response_tag"
-                     [] d = "accept.scope" -> "scope"
+                     [] d = "accept.scope" -> "scope" [] d = "accept.response_view_mapping" -> "response_view_mapping"
                      [] d = "accept.request_mapping" -> "request_mapping" [] d = "accept.response_mapping" -> "response_mapping"
                      [] d = "accept.grpc_mapping" -> "grpc_mapping" [] d = "accept.scheme" -> "scheme"
                      [] d = "accept.view" -> "view" [] d = "accept.error_response" -> "error_response" [] OTHER -> "-"
@@ -916,11 +951,22 @@ CurCtx == IF stack = <<>> THEN "Top" ELSE stack[Len(stack)].ctx
 CurNode == IF stack = <<>> THEN 0 ELSE stack[Len(stack)].node
 Usable == {f \in Fns : f \in Once => \A i \in Idx(nodes) : nodes[i].f # f}
 \* the spine first: while a once-only function documented for this context is still unused, it is what gets called next
+\* (steering of the response-view walk: mappings go into the response, attributes into the Attributes block, a Result names a view,
+\* views are named nowhere else,
+\* the transport block belongs to the method)
+OpenFn == IF stack = <<>> THEN "-" ELSE nodes[stack[Len(stack)].node].f
+Elsewhere(ctx) == IF Pools # "rv" THEN {}
+                  ELSE IF ctx = "Service" THEN {"HTTP"}
+                  ELSE IF ctx = "MethHTTP" THEN {"Header", "Cookie", "Body"}
+                  ELSE IF ctx = "RT" THEN AttrDecl
+                  ELSE IF ctx = "Attr" /\ OpenFn \in ResultFs THEN AttrDecl
+                  ELSE IF ctx = "Attr" THEN {"View"}
+                  ELSE {}
 SpineContainer(f, ctx) == FT[f].opens # "" /\ \E g \in (Usable \cap Once) \ {f} : OpenCtx(f, "-", ctx) \in FT[g].doc
-SpineHere(ctx) == LET S == {f \in Usable \cap Once : ctx \in FT[f].doc}
+SpineHere(ctx) == LET S == {f \in Usable \cap Once : ctx \in FT[f].doc} \ Elsewhere(ctx)
                       C == {f \in S : SpineContainer(f, ctx)}
                   IN IF SpineDeep /\ C # {} THEN C ELSE S
-WellFns(ctx) == IF SpineHere(ctx) # {} THEN SpineHere(ctx) ELSE {f \in Usable : ctx \in FT[f].doc}
+WellFns(ctx) == IF SpineHere(ctx) # {} THEN SpineHere(ctx) ELSE {f \in Usable : ctx \in FT[f].doc} \ Elsewhere(ctx)
 MisFns(ctx) == {f \in Usable : ctx \notin FT[f].doc}
 
 Init == /\ nodes = <<>> /\ stack = <<>> /\ pc = "mode" /\ mode = "-" /\ cur = NoCall /\ nmis = 0
@@ -944,6 +990,10 @@ NamePool(f) == IF Pools = "sec" /\ f = "Security" THEN {"sc1", "vsc1"}
                \* (steering of the parent walk: the services of a program have different names)
                ELSE IF Pools = "par" /\ f = "Service" /\ Pool(FT[f].ns) \ {nodes[i].n : i \in {j \in Idx(nodes) : nodes[j].f = "Service"}} # {}
                     THEN Pool(FT[f].ns) \ {nodes[i].n : i \in {j \in Idx(nodes) : nodes[j].f = "Service"}}
+               \* (steering of the response-view walk: one result type; sibling attributes / views / mappings have different names)
+               ELSE IF Pools = "rv" /\ f = "ResultType" THEN {"R1"}
+               ELSE IF Pools = "rv" /\ Pool(FT[f].ns) \ {nodes[k].n : k \in {j \in KidsOf(nodes, CurNode) : nodes[j].f = f}} # {}
+                    THEN Pool(FT[f].ns) \ {nodes[k].n : k \in {j \in KidsOf(nodes, CurNode) : nodes[j].f = f}}
                ELSE Pool(FT[f].ns)
 ChooseN == /\ pc = "n" /\ \E n \in NamePool(cur.f) : cur' = [cur EXCEPT !.n = n]
            /\ pc' = "t" /\ UNCHANGED <<nodes, stack, mode, nmis, outcome, later>>
@@ -962,6 +1012,8 @@ Referable(f) == LET P == Pool(FT[f].ts) IN
 \* (steering of the recursion walk: user types are declared with a function, the type tokens are for what refers to them)
 TypePool(f) == IF Pools = "rec" /\ f = "Type" THEN {"-"}
                ELSE IF Pools = "rec" /\ f \in {"Payload", "StreamingPayload", "Result", "StreamingResult"} THEN Referable(f) \ {"nT1", "nT2"}     \* (Payload("T1") is rejected: a payload is not named by a string)
+               \* (steering of the response-view walk: the result is the result type, attributes are primitive)
+               ELSE IF Pools = "rv" THEN (IF f \in {"Result", "StreamingResult"} THEN {"R1"} ELSE IF "-" \in Pool(FT[f].ts) THEN {"-"} ELSE Pool(FT[f].ts))
                ELSE Referable(f)
 ChooseT == /\ pc = "t" /\ \E t \in TypePool(cur.f) : cur' = [cur EXCEPT !.t = t]
            /\ pc' = "c" /\ UNCHANGED <<nodes, stack, mode, nmis, outcome, later>>
@@ -974,6 +1026,10 @@ VarClasses(f) == LET canOpen == Pool(FT[f].vs) \cap OpenVars # {} /\ Len(stack) 
 VarClassesHere == LET V == VarClasses(cur.f) IN
                   IF Pools = "rec" /\ cur.t # "-" /\ "closed" \in V THEN {"closed"}
                   ELSE IF Pools \in {"rec", "par"} /\ cur.t = "-" /\ "open" \in V /\ cur.f \in {"Type", "Payload", "StreamingPayload", "Result", "StreamingResult", "Service", "Method"} THEN {"open"}
+                  \* (steering of the response-view walk: attributes are leaves, a view is defined in the result type and named elsewhere, blocks run a function)
+                  ELSE IF Pools = "rv" /\ cur.f \in AttrDecl /\ "closed" \in V THEN {"closed"}
+                  ELSE IF Pools = "rv" /\ cur.f = "View" THEN (IF CurCtx = "RT" /\ "open" \in V THEN {"open"} ELSE V \ {"open"})
+                  ELSE IF Pools = "rv" /\ cur.f \in {"ResultType", "Attributes", "Service", "Method", "HTTP", "Response"} /\ "open" \in V THEN {"open"}
                   ELSE V
 ChooseC == /\ pc = "c" /\ \E c \in VarClassesHere : cur' = [cur EXCEPT !.c = c]
            /\ pc' = "v" /\ UNCHANGED <<nodes, stack, mode, nmis, outcome, later>>
